@@ -39,6 +39,41 @@ claimed = {
    technique="stateless model checking of the implementation: controlled scheduler + preemption/deviation-bounded DFS",
    ref="5/C17"),
 }
+SEQ = "explicit-state exploration of the implementation: BFS over operation sequences on the real cache against a reference model, canonical-state dedup"
+claimed.update({
+ "C01": dict(
+   text="Every operation sequence up to depth 3 (quick) / 4 (thorough) over a ~100-symbol alphabet (all public operations, loaders with every outcome, bulk shapes, clock advances incl. exact tick boundaries, CleanUp, SetMaximum) on keys {1,2,3}, in every feature combination (unbounded/MaximumSize/MaximumWeight x 5 expiry kinds x refresh on/off, plus deferred executor and InitialCapacity variants), replayed on a fresh real cache and compared at every step with a map-with-deadlines model: return values, callbacks, loader calls, deletion events and their causes, All() and GetEntryQuietly per key.",
+   note="Model removal is driven by the cache's own OnAtomicDeletion events; the eviction victim, iteration order and EstimatedSize are not asserted. Dedup merges states with equal canonical snapshots (a wrong merge can only lose coverage, never raise an alarm).",
+   technique=SEQ, ref="5/C01"),
+ "C03": dict(
+   text="From every way of reaching the expired-but-unswept state (4 writers x optional read x 5 clock offsets around the deadline and the timer tick x optional CleanUp) every public operation (incl. Refresh, BulkRefresh, SaveCacheTo, iterators, per-entry deadline setters) followed by every observer, in all expiring configurations: the key must behave as absent and must not become visible again except by a write or completed load.",
+   note="Sequential exhaustive product (depth 2 from 80 prefixes per configuration) plus a coarse two-thread clock interleaving.",
+   technique=SEQ, ref="5/C03"),
+ "C07": dict(
+   text="All sequences up to depth 4/5 of inserts with weights {0,1,2,max,max+1}, updates, reads, invalidations, SetMaximum {0,1,2,3,5}, clock advances and CleanUp on 4 keys: every automatic removal is judged when reported - Overflow only if the running total weight exceeded the maximum (or the entry alone does), Expiration only if the deadline passed; none in an unbounded cache; zero-weight entries never.",
+   note="Running total = model weight after the operation's own writes minus evictions already judged.",
+   technique=SEQ, ref="5/C07"),
+ "C10": dict(
+   text="Product of cache contents per key in {absent, fresh, refresh-due, expired-unswept}^3 x all 39 key lists of length <=3 over 3 keys (with duplicates) x 8 bulk loader shapes (full, partial, extra, partial+extra, empty, error, ErrNotFound, panic) and Get x 5 loader outcomes, in 4 configurations: result maps, errors, cache contents after the call and loader argument lists against the model.",
+   note="Same-goroutine executor; behaviour of panicking reloads is not asserted.",
+   technique=SEQ, ref="5/C10"),
+ "C11": dict(
+   text="All sequences up to depth 3/4 of reads/writes/loads/Refresh/BulkRefresh with every reload outcome, clock advances to refresh deadline -1/0/+1 and to expiry, on 2 keys, refresh {creating, writing} x expiry {none, writing} x executor {same-goroutine, deferred with an explicit run-executor symbol}: stale reads return the cached value and trigger exactly one Reload(key, old), fresh reads none, success swaps, failure keeps value and expiry, not-found removes, each explicit Refresh delivers exactly one result, nil channel without a refresh policy.",
+   note="Concurrent readers during an in-flight reload are covered by the C08/C09 scenarios.",
+   technique=SEQ, ref="5/C11"),
+ "C12": dict(
+   text="Product of clock origin {0,1,2^40+12345,1.7e18,2^62} x duration {1,2,2^30,MaxInt64-now-1,MaxInt64-now,MaxInt64-now+1,MaxInt64/2+1,MaxInt64} x hook (create, update, read, SetExpiresAfter, refresh create/update/reload/failure, SetRefreshableAfter) x calculator kind, with 2-op chains: stored deadlines equal time + returned duration (saturating), the entry is visible at deadline-1 and invisible at deadline, and never expires when the sum exceeds the representable range (probed at now+1, now+10y, MaxInt64-1).",
+   note="Probes move the harness clock and use GetEntryQuietly only (no side effects).",
+   technique=SEQ, ref="5/C12"),
+ "C13": dict(
+   text="All sequences up to depth 4/5 of writes with TTLs from 1 ns to MaxInt64/2, reads, deadline extensions, invalidations, clock jumps from 1 ns over every wheel span to 100 years, and CleanUp, from 3 clock origins: after each CleanUp at time T every entry whose deadline and write lie more than one tick before T is gone and its Expiration event was delivered.",
+   note="Sequential part; the write-vs-maintenance race is a scheduler scenario (see DESIGN).",
+   technique=SEQ, ref="5/C13"),
+ "C20": dict(
+   text="The C01 exploration with stats.Counter attached (6 configurations incl. deferred executor): after every operation hits/misses equal the lookups of the counting operations judged on the model, load successes/failures equal loader invocations by outcome, evictions lie between the Overflow removals and Overflow+Expiration removals (count and weight), counters never decrease.",
+   note="Whether a compute that panics counts as a lookup is not asserted.",
+   technique=SEQ, ref="5/C20"),
+})
 props = [json.loads(l) for l in open("/verif/properties.jsonl")]
 checks, na = [], []
 for p in props:
@@ -51,7 +86,7 @@ for p in props:
           "thorough_cmd": f"bin/vcheck {pid} --tier thorough",
           "evidence_file": f"/verif/evidence/{pid}.json",
           "replay_cmd_template": f"bin/vcheck {pid} --replay {{path}}",
-          "engine": c.get("engine","vsched+harness"),
+          "engine": "seqx+model" if c["technique"].startswith("explicit-state") else "vsched+harness",
           "level_claimed": {"category":"model_checking","text":c["text"],"design_ref":c["ref"]},
           "level_note": c["note"],
           "technique": c["technique"],
